@@ -1,6 +1,7 @@
 package checks
 
 import (
+	"bytes"
 	"fmt"
 	"math/rand"
 	"net"
@@ -256,6 +257,7 @@ func (d *dhcpRun) history() {
 		// dropped with it when the MAC's last host is re-bound or purged (DESIGN Corrections)
 		cl.captured = s.IsCaptured(net.HardwareAddr(cl.mac[:]))
 		var frameB []byte
+		var foreignYI netip.Addr
 		mustAck, ackedNow := "", false
 		var req *refdec.DHCPMsg
 		var srcIP netip.Addr = ip4zero
@@ -442,6 +444,7 @@ func (d *dhcpRun) history() {
 		case "foreign":
 			// another server's OFFER to the client, seen on port 68
 			q := refdec.DHCPMsg{Op: 2, HType: 1, HLen: 6, XID: cl.xid, YI: d.pickAddr(1, cl, cls, false)}
+			foreignYI = q.YI
 			copy(q.CHAddr[:], cl.mac[:])
 			q.Options = []refdec.DHCPOpt{{Code: 53, Data: []byte{2}}, {Code: 54, Data: ip4b(nic.RouterIP)}, {Code: 51, Data: []byte{0, 0, 14, 16}}}
 			frameB = dhcpFrame(toMAC(nic.RouterMAC), nic.RouterIP, bc, q, 67, 68, bcastMAC)
@@ -549,6 +552,19 @@ func (d *dhcpRun) history() {
 				path = "session-probe"
 			}
 			txObserve(c, nic, path, []mon.TxFrame{f}, func() any { return cs(step) })
+			if o.K == "foreign" && foreignYI.IsValid() && !dec.Err && dec.OffUDP != 0 && dec.DstPort == 67 {
+				// the DECLINE this host forges towards the other server in answer to its OFFER: it must name what it declines
+				if dm, err := refdec.ParseDHCP(f.Data[dec.OffUDP+8:]); err == nil && dm.Op == 1 && dm.Type() == refdec.DHCPDecline {
+					rq, _ := dm.OptIP4(50)
+					sid, _ := dm.OptIP4(54)
+					if rq != foreignYI || sid != nic.RouterIP || !bytes.Equal(dm.CHAddr[:6], cl.mac[:]) || dm.XID != cl.xid {
+						c.ViolP("C07", "dhcp:forged-decline-fields", fmt.Sprintf("forged DECLINE for the foreign OFFER of %v to %x (xid %x, server %v): requested address %v, server identifier %v, chaddr %x, xid %x",
+							foreignYI, cl.mac[:], cl.xid[:], nic.RouterIP, rq, sid, dm.CHAddr[:6], dm.XID[:]), cs(step))
+						d.viol = true
+					}
+					c.Obs("forged_declines_checked", 1)
+				}
+			}
 			if !isReply || req == nil {
 				continue
 			}
